@@ -612,9 +612,15 @@ func (g *G) stRange() Tri {
 		if v.T.K == KArray {
 			trip = v.T.N
 		}
-		// the ranged variable must not be appended to / resliced inside its own loop
+		// a ranged slice must not be appended to / resliced inside its own loop; a ranged
+		// ARRAY may be written: range iterates over a copy of the array value, so the
+		// element variable keeps seeing the original elements (language rule worth testing)
 		oldRO := v.RO
-		v.RO = true
+		if v.T.K == KSlice {
+			v.RO = true
+		} else if !v.RO {
+			g.feat("range-array-copy")
+		}
 		body := g.loopBody(trip, "", nil)
 		v.RO = oldRO
 		g.pop()
